@@ -97,8 +97,18 @@ def c08(run):
     run.run_harness(exe, timeout=1800, label="c08cells")
 
 
+def c09(run):
+    import gen_c09
+    d = gen_c09.make()
+    ok, exe, errs, tail = _diag.build(d, PB_TARGET, timeout=3000)
+    if not ok:
+        raise Infra("the C09 marker crate does not build against the current tree:\n" + json.dumps(errs)[:2000] + tail[-1500:])
+    run.run_harness(exe, timeout=600, label="c09markers")
+
+
 PROPS = {
     "C08": c08,
+    "C09": c09,
     "C01": progbatch,
     "C02": progbatch,
     "C06": progbatch,
